@@ -353,6 +353,9 @@ static void state_snapshot(buf_t *out)
     for (int s = 1; s < 65; s++) {
         struct sigaction sa;
         if (sigaction(s, NULL, &sa) != 0) continue;
+        /* (the C library adds its return trampoline flag to every action it installs -- also when it merely puts SIG_DFL back, as its
+           utmp functions do with SIGALRM; the flag means nothing to the caller) */
+        sa.sa_flags &= ~0x04000000;
         if (sa.sa_handler == SIG_DFL && sa.sa_flags == 0) continue;
         snprintf(t, sizeof t, "%d:%p:%x,", s, (void *) sa.sa_handler, (unsigned) sa.sa_flags);
         buf_add(out, t, strlen(t));
